@@ -181,7 +181,9 @@ func (u *Unit) verifyFunc() {
 	// loops declared in the contract but absent from the code
 	for ord := range ct.Loops {
 		if ord > u.nLoops {
-			u.unbound = append(u.unbound, fmt.Sprintf("contract of %s declares loop %d which the function does not have", fi.Key, ord))
+			// an invariant without a loop generates no obligation and justifies nothing: the
+			// function's postconditions still have to be proved from the code as it is
+			u.notes = append(u.notes, fmt.Sprintf("contract of %s declares loop %d which the function does not have (unused)", fi.Key, ord))
 		}
 	}
 }
